@@ -465,8 +465,21 @@ class CallMixin:
 
     # ------------------------------------------------------------------
     def ev_Call(self, e: ast.Call, st: State):
-        if any(isinstance(a, ast.Starred) for a in e.args) or any(k.arg is None for k in e.keywords):
+        if any(isinstance(a, ast.Starred) for a in e.args):
             raise EngineError(f"star-args in call: {ast.unparse(e)}")
+        if any(k.arg is None for k in e.keywords):
+            # f(x, **kw): only towards an ASSUMED external callee whose contract says the extra keywords do not matter
+            # (types={"__ignore_starargs__": True}); the call is then checked without them
+            e2 = ast.Call(func=e.func, args=e.args, keywords=[k for k in e.keywords if k.arg is not None])
+            ast.copy_location(e2, e)
+            ok = False
+            for s0, fv0 in self.ev(e.func, st.copy()):
+                ex0 = getattr(fv0, "extra", None)
+                if isinstance(ex0, tuple) and ex0[0] == "extmethod":
+                    ok = bool(self.reg.funs[ex0[1]].types.get("__ignore_starargs__"))
+            if not ok:
+                raise EngineError(f"star-args in call: {ast.unparse(e)}")
+            return self.ev_Call(e2, st)
         f = e.func
         if isinstance(f, ast.Name) and f.id == "cast" and len(e.args) == 2 and f.id not in st.store:
             return self.ev(e.args[1], st)  # typing.cast: identity on the second argument
@@ -878,6 +891,8 @@ class CallMixin:
             v = self.evs(e.args[0], st)
             if st.old is None:
                 raise EngineError("fresh() outside a postcondition")
+            if isinstance(v.t, TNone):
+                return [(st, SV(BOOL, z3.BoolVal(False)))]  # None is not an object
             if isinstance(v.t, TOpt):
                 v = sym.opt_val(v)
             return [(st, SV(BOOL, z3.And(v.z >= st.old.alloc, v.z < st.alloc)))]
